@@ -11,14 +11,39 @@ namespace P
 
 /-! ### update -/
 
-theorem zipper_eq (lo hi : BitVec 64) : Spec.zipper lo hi = (zipLo hi lo, zipHi hi lo) := by
+set_option maxRecDepth 8000 in
+theorem zipLo_eq (lo hi : BitVec 64) : (Spec.zipper lo hi).1 = zipLo hi lo := by
   simp only [Spec.zipper, Spec.zipTbl, Spec.byteOf, List.map_cons, List.map_nil, List.take, List.drop, le64,
-    List.getD_cons_zero, List.getD_cons_succ, zipLo, zipHi]
-  simp only [Prod.mk.injEq]
-  constructor <;> bv_decide
+    List.getD_cons_zero, List.getD_cons_succ, zipLo]
+  ext i hi'
+  simp only [BitVec.getElem_append, BitVec.getElem_or, BitVec.getElem_and, BitVec.getElem_ushiftRight, BitVec.getElem_shiftLeft,
+    BitVec.getLsbD_or, BitVec.getLsbD_and, BitVec.getLsbD_extractLsb', BitVec.getElem_extractLsb', BitVec.getLsbD_ofNat]
+  interval_cases i <;> simp [Nat.testBit, Nat.shiftRight_eq_div_pow]
+
+set_option maxRecDepth 8000 in
+theorem zipHi_eq (lo hi : BitVec 64) : (Spec.zipper lo hi).2 = zipHi hi lo := by
+  simp only [Spec.zipper, Spec.zipTbl, Spec.byteOf, List.map_cons, List.map_nil, List.take, List.drop, le64,
+    List.getD_cons_zero, List.getD_cons_succ, zipHi]
+  ext i hi'
+  simp only [BitVec.getElem_append, BitVec.getElem_or, BitVec.getElem_and, BitVec.getElem_ushiftRight, BitVec.getElem_shiftLeft,
+    BitVec.getLsbD_or, BitVec.getLsbD_and, BitVec.getLsbD_extractLsb', BitVec.getElem_extractLsb', BitVec.getLsbD_ofNat]
+  interval_cases i <;> simp [Nat.testBit, Nat.shiftRight_eq_div_pow]
+
+/-- the mask-and-shift formulas of `zipper_merge_and_add` are the byte permutation of the spec
+(kernel-checked bit by bit; no SAT solver involved) -/
+theorem zipper_eq (lo hi : BitVec 64) : Spec.zipper lo hi = (zipLo hi lo, zipHi hi lo) :=
+  Prod.ext (zipLo_eq lo hi) (zipHi_eq lo hi)
+
+theorem mask32_eq (a : BitVec 64) : (a.setWidth 32).setWidth 64 = a &&& 0xffffffff#64 := by
+  apply BitVec.eq_of_toNat_eq
+  simp only [BitVec.toNat_setWidth, BitVec.toNat_and, BitVec.toNat_ofNat]
+  have h : (4294967295 : Nat) % 2 ^ 64 = 2 ^ 32 - 1 := by decide
+  rw [h, Nat.and_two_pow_sub_one_eq_mod]
+  have : a.toNat % 2 ^ 32 < 2 ^ 64 := Nat.lt_of_lt_of_le (Nat.mod_lt _ (by decide)) (by decide)
+  exact Nat.mod_eq_of_lt this
 
 theorem mul32_eq (a b : BitVec 64) : Spec.mul32 a b = mul32 a b := by
-  unfold Spec.mul32 mul32; bv_decide
+  unfold Spec.mul32 mul32; rw [mask32_eq]
 
 theorem zipperAdd_eq (d s : V4) : zipperAdd d s = V4.add d (Spec.zipperV s) := by
   simp [zipperAdd, Spec.zipperV, zipper_eq, V4.add, V4.zipWith]
@@ -70,9 +95,29 @@ theorem remainder_eq_spec (bytes : List (BitVec 8)) (h : bytes.length < 32) :
 
 /-! ### length injection and 32-bit rotation -/
 
+theorem shr32_zero (y : BitVec 32) : y >>> 32 = 0 := by
+  apply BitVec.eq_of_toNat_eq
+  simp only [BitVec.toNat_ushiftRight, Nat.shiftRight_eq_div_pow, BitVec.toNat_zero]
+  exact Nat.div_eq_of_lt y.isLt
+
+theorem rotateLeft32_zero (y : BitVec 32) : y.rotateLeft 0 = y := by
+  rw [BitVec.rotateLeft_def]; simp [shr32_zero]
+
 theorem rot32Lane_eq_spec (n : Nat) (h : n < 32) (x : BitVec 64) : rot32Lane n x = Spec.rot32by n x := by
   unfold rot32Lane Spec.rot32by
-  interval_cases n <;> simp <;> bv_decide
+  have hcl : n % 32 = n := Nat.mod_eq_of_lt h
+  have hcr : ((2 ^ 64 + 32 - n) % 2 ^ 64) % 32 = (32 - n) % 32 := by
+    have : (2 ^ 64 + 32 - n) = 2 ^ 64 + (32 - n) := by omega
+    rw [this, Nat.add_mod_left, Nat.mod_eq_of_lt (a := 32 - n) (by omega)]
+  simp only [hcl, hcr]
+  by_cases h0 : n = 0
+  · subst h0
+    simp only [rotateLeft32_zero, Nat.sub_zero, Nat.mod_self, BitVec.shiftLeft_zero, BitVec.ushiftRight_zero, BitVec.or_self]
+    exact BitVec.or_comm _ _
+  · have : (32 - n) % 32 = 32 - n := Nat.mod_eq_of_lt (by omega)
+    rw [this]
+    simp only [BitVec.rotateLeft_def, hcl]
+    exact BitVec.or_comm _ _
 
 theorem updateLanes_eq (s : St) (n : Nat) (h : n < 32) :
     updateLanes s n = { s with v0 := s.v0.map (· + ((BitVec.ofNat 64 n <<< 32) + BitVec.ofNat 64 n)), v1 := s.v1.map (Spec.rot32by n) } := by
@@ -88,9 +133,26 @@ theorem rounds_eq_spec (n : Nat) (s : St) : rounds n s = Spec.rounds n s := by
   | zero => rfl
   | succ n ih => simp only [rounds, Spec.rounds, permuteAndUpdate, update_eq_spec, permute_eq_spec, ih]
 
-theorem moduleReduction_eq_spec (a3 a2 a1 a0 : BitVec 64) : moduleReduction a3 a2 a1 a0 = Spec.modred a3 a2 a1 a0 := by
-  simp only [moduleReduction, Spec.modred, Prod.mk.injEq]
-  constructor <;> bv_decide
+set_option maxRecDepth 20000 in
+theorem modred_lo (a3 a2 a1 a0 : BitVec 64) : (moduleReduction a3 a2 a1 a0).1 = (Spec.modred a3 a2 a1 a0).1 := by
+  simp only [moduleReduction, Spec.modred]
+  ext i hi
+  simp only [BitVec.getElem_xor, BitVec.getElem_shiftLeft, BitVec.getElem_setWidth, BitVec.getLsbD_xor, BitVec.getLsbD_shiftLeft,
+    BitVec.getLsbD_and, BitVec.getLsbD_append, BitVec.getLsbD_ofNat]
+  interval_cases i <;> simp [Nat.testBit, Nat.shiftRight_eq_div_pow]
+
+set_option maxRecDepth 20000 in
+theorem modred_hi (a3 a2 a1 a0 : BitVec 64) : (moduleReduction a3 a2 a1 a0).2 = (Spec.modred a3 a2 a1 a0).2 := by
+  simp only [moduleReduction, Spec.modred]
+  ext i hi
+  simp only [BitVec.getElem_xor, BitVec.getElem_or, BitVec.getElem_and, BitVec.getElem_shiftLeft, BitVec.getElem_ushiftRight,
+    BitVec.getElem_setWidth, BitVec.getLsbD_xor, BitVec.getLsbD_shiftLeft, BitVec.getLsbD_ushiftRight,
+    BitVec.getLsbD_and, BitVec.getLsbD_append, BitVec.getLsbD_ofNat]
+  interval_cases i <;> simp [Nat.testBit, Nat.shiftRight_eq_div_pow]
+
+/-- the 64-bit shift/or formulas of `module_reduction` are the 128-bit polynomial formula of the spec -/
+theorem moduleReduction_eq_spec (a3 a2 a1 a0 : BitVec 64) : moduleReduction a3 a2 a1 a0 = Spec.modred a3 a2 a1 a0 :=
+  Prod.ext (modred_lo a3 a2 a1 a0) (modred_hi a3 a2 a1 a0)
 
 end P
 end HH
